@@ -65,7 +65,8 @@ func rulesC17(w *World, r *Report) {
 			}
 		}
 	}
-	// factories: closures passed to a constructor
+	// factories: the functions passed to a constructor
+	isFactory := map[*ssa.Function]bool{}
 	for _, fn := range w.SrcFuncs() {
 		for _, cs := range w.callSitesIn(fn) {
 			sc := cs.call.Call.StaticCallee()
@@ -78,13 +79,20 @@ func rulesC17(w *World, r *Report) {
 			if !isCtor {
 				continue
 			}
-			for _, a := range cs.call.Call.Args {
-				if mc, ok := a.(*ssa.MakeClosure); ok {
-					factories = append(factories, mc.Fn.(*ssa.Function))
+			// the function-typed arguments: a literal, a named function, a method
+			// value, or the result of a maker function that returns one of those
+			for ai, a := range cs.call.Call.Args {
+				if _, isFn := a.Type().Underlying().(*types.Signature); !isFn {
+					continue
 				}
-				if ct, ok := a.(*ssa.ChangeType); ok {
-					if mc, ok := ct.X.(*ssa.MakeClosure); ok {
-						factories = append(factories, mc.Fn.(*ssa.Function))
+				fs, ok := w.funcValuesOf(a)
+				if !ok {
+					r.undecided("C17.R3 pooled value has a single owner", fmt.Sprintf("%s · %s · factory argument #%d", fnName(fn), cs.key(), ai), w.instrPos(cs.call), "the function handed to the pool constructor is not statically known: its freshness cannot be examined")
+				}
+				for _, f := range fs {
+					if !isFactory[f] {
+						isFactory[f] = true
+						factories = append(factories, f)
 					}
 				}
 			}
